@@ -14,11 +14,11 @@ def gen(tier, rnd):
     cases = []
     cid = [0]
 
-    def case(cidn, ckey, table, hint='srv', acc=1, nq=2, inj=0, rel=0, idcb=1, drop=(), sni='', warm='', snik=(), dup=(), mute=0, sclose=0):
+    def case(cidn, ckey, table, hint='srv', acc=1, nq=2, inj=0, rel=0, idcb=1, drop=(), sni='', warm='', snik=(), dup=(), mute=0, sclose=0, obs=0, tk2=0):
         cid[0] += 1
-        cases.append((cid[0], ['X id=%d cid=%s ckey=%s sk=%s hint=%s acc=%d nq=%d inj=%d rel=%d idcb=%d drop=%s sni=%s warm=%s snik=%s dup=%s mute=%d sclose=%d'
+        cases.append((cid[0], ['X id=%d cid=%s ckey=%s sk=%s hint=%s acc=%d nq=%d inj=%d rel=%d idcb=%d drop=%s sni=%s warm=%s snik=%s dup=%s mute=%d sclose=%d obs=%d tk2=%d'
                                % (cid[0], cidn, ckey, ','.join('%s:%s' % kv for kv in table), hint, acc, nq, inj, rel, idcb, ','.join(map(str, drop)),
-                                  sni, warm, ','.join('%s:%s' % kv for kv in snik), ','.join(map(str, dup)), mute, sclose), 'E']))
+                                  sni, warm, ','.join('%s:%s' % kv for kv in snik), ','.join(map(str, dup)), mute, sclose, obs, tk2), 'E']))
     K = 'secretkey0123456'
     keys = [K, K[:-1], K + 'x', K[:8], 'S' + K[1:], K.upper(), 'a', K * 2]
     # equal / different length / prefix / extension / one character off
@@ -54,6 +54,22 @@ def gen(tier, rnd):
         case('alice', 'wrongkey', [('alice', K)], nq=2, rel=rel)
         case('mallory', K, [('alice', K)], nq=2, rel=rel)
         case('alice', K, [('alice', K)], nq=2, rel=rel)
+    # queued requests for which the library keeps state of its own (Observe registrations): still one NACK each when the handshake fails,
+    # the session is released before it completes, the peer stays silent or the established session is lost; delivered once when it succeeds
+    for obs in (1, 2, 9):
+        for nq in (1, 2, 3):
+            if obs != 9 and obs > nq:
+                continue
+            case('alice', 'wrongkey', [('alice', K)], nq=nq, obs=obs, tk2=1)
+            case('mallory', K, [('alice', K)], nq=nq, obs=obs, tk2=1)
+            case('alice', K, [('alice', K)], acc=0, nq=nq, obs=obs, tk2=1)
+            case('alice', K, [('alice', K)], nq=nq, obs=obs, tk2=1)
+            case('alice', 'wrongkey', [('alice', K)], nq=nq, obs=obs, rel=100, tk2=1)
+            case('alice', K, [('alice', K)], nq=nq, obs=obs, drop=tuple(range(0, 40)), tk2=1)
+            case('alice', K, [('alice', K)], nq=nq, obs=obs, mute=1, sclose=500, tk2=1)
+    # the same with one-byte tokens 1..nq and the second request the first with state: KF_C19_APP_TOKEN_EQUALS_STATE_TOKEN (directed)
+    case('mallory', K, [('alice', K)], nq=3, obs=2)
+    case('alice', K, [('alice', K)], nq=2, obs=2)
     # cleartext CoAP thrown at the DTLS endpoint: from a stranger and from the client's own address, credentials right and wrong
     for inj in (1, 2):
         case('alice', K, [('alice', K)], nq=2, inj=inj)
@@ -98,7 +114,8 @@ def run(pid, tier):
         sts.append(st)
     cases = gen(tier, rnd)
     os.environ['ASAN_OPTIONS'] = 'detect_leaks=0:abort_on_error=0:exitcode=99:allocator_may_return_null=1'     # GnuTLS global state
-    vio_out, nexec, known, results = V.drive_and_validate(pid, drv, cases, out, 'Trace_Gate', xmx='3g')
+    env = {f['id']: '1' for f in V.enabled_findings()}
+    vio_out, nexec, known, results = V.drive_and_validate(pid, drv, cases, out, 'Trace_Gate', xmx='3g', env=env)
     nm = sum(r.get('matching', 0) for r in results)
     nx = sum(r.get('mismatching', 0) for r in results)
     if (nm == 0 or nx == 0) and not vio_out:
@@ -113,4 +130,5 @@ def run(pid, tier):
         assumptions=['DTLS over UDP with PSK only (GnuTLS): TLS over TCP, certificates and SNI are not exercised',
                      'GnuTLS retransmits lost handshake flights on the real clock, so under loss only safety (no delivery without authentication, no cleartext, '
                      'at most one NACK or response per request) is asserted'])
-    V.finish(pid, vio_out, [])
+    kf = [f for f in V.enabled_findings(pid) if f['id'] in known]
+    V.finish(pid, vio_out, ['%s: %s' % (f['id'], f['signature']) for f in kf])
